@@ -136,6 +136,23 @@ Fifth round (C08, C20, C07; one agent per property):
   linear scan with `<` for `<=` only without `alloc`; a 64-bit fast path without `std`; `find_n` built on `find` with `alloc`): nine
   out of nine caught by the machinery as it was.
 
+Sixth round (C20, C17, C19, C07; each agent was told what the machinery evidently does and asked to get past it): 12 changes, 5 missed at first.
+
+* `seeded/C20-r6c20-m1` (every leading colon stripped, so `::Zone` opens `<dir>/Zone`): no value had more than one colon. Added `::name`,
+  `::/abs`, `::`, `:::`, `::localtime`, colon + blank. `m2` (the directory scan stops at an `io::Error` of kind `InvalidInput`): the read
+  seam only produced five errno values. It now produces eleven errno values, four code-less `io::ErrorKind`s (what std itself returns,
+  e.g. for a NUL in a path) and an error that is not an `io::Error` at all; file permissions and `chmod` use them too. `m3` (numbers
+  folded with wrapping arithmetic) was caught by the footer corruption `footer_big_number`.
+* `seeded/C19-r6c19-m2` (`parse_local` honours `$TZ`, only with std): `featsim` neither called `parse_local` nor ran with a `TZ` in its
+  environment. Each scenario now sets `TZ`/`TZDIR` from its seed (unset / `JST-9` / `:Zone/A` + `/zi`), identically in the three builds,
+  and one resolution in four is `parse_local`. `m3` (`Error::source()` overridden only with alloc): the canonical form of an error
+  was its `Debug` text. It is now `Debug`, `Display` and the `source()` chain, of the value itself and of the crate-wide `tz::Error` it
+  converts into. `m1` (`Path::join` with std, `format!` without) was caught as it was.
+* `seeded/C07-r6c07-m1` (`Display` of a `DateTime` indexing a 00-99 table with the offset hours): the panic happened while the *harness*
+  rendered a result, outside the measured call, and was reported as a harness error (exit 2). A panic whose location lies in the library's
+  source while a result is read through public getters or `Display` is now `C07.panic` (`run_op_guarded`). `m2` (error message indexing
+  `directories[0]`), `m3` (`latest()` indexing with the total count) and all of `seeded/C17-r6c17-m1/m2/m3` were caught as they were.
+
 Two-site breakages (`seeded/C07-duo2-m1`, `C08-duo2-m2`, `C17-duo2-m3`): each consists of two edits in different functions that are
 harmless alone (a relaxed range check in `TimeZoneRef::new` + a hoisted index in `find`; explicit enum discriminants + a numeric version
 comparison; an up-front validation in `find_n` + a reordered range check in the shared search). All three combinations were caught by the
